@@ -144,11 +144,11 @@ class DSDLTemplateLoader(BaseLoader):
 
     def get_templates(self) -> typing.Iterable[pathlib.Path]:
         """
-        Enumerate all templates found in the templates path.
-        :data:`~TEMPLATE_SUFFIX` as the suffix for the filename. This method differs from the :class:`BaseLoader`
-        override of :meth:`BaseLoader.list_templates` in that it returns paths instead of just file name stems.
+        Enumerate every file the loaders can serve to a template (the templates themselves and any other resource
+        they may ``include``, whatever its suffix; Python package files are not resources). This method differs from
+        :meth:`BaseLoader.list_templates` in that it returns paths instead of just file name stems.
 
-        :return: A list of paths to all templates found by this Generator object.
+        :return: A list of paths to all template resources found by this Generator object.
 
         .. invisible-code-block: python
 
@@ -174,7 +174,7 @@ class DSDLTemplateLoader(BaseLoader):
         files = set()
         if self._fsloader is not None:
             for template_dir in self._fsloader.searchpath:
-                for template in pathlib.Path(str(template_dir)).glob("**/*{}".format(TEMPLATE_SUFFIX)):
+                for template in filter(_is_template_resource, pathlib.Path(str(template_dir)).glob("**/*")):
                     files.add(template)
         if self._package_loader is not None:
             templates_module = importlib.import_module(self._templates_package_name)
@@ -185,8 +185,8 @@ class DSDLTemplateLoader(BaseLoader):
             if file_perhaps is None or file_perhaps == "builtin":
                 raise RuntimeError("Unknown template package origin?")
             templates_base_path = pathlib.Path(file_perhaps).parent
-            for t in self._filter_template_list_by_suffix(self._package_loader.list_templates()):
-                files.add(templates_base_path / pathlib.Path(t))
+            for t in self._package_loader.list_templates():
+                files.update(filter(_is_template_resource, [templates_base_path / pathlib.Path(t)]))
         return sorted(files)
 
     def type_to_template(self, value_type: typing.Type) -> typing.Optional[pathlib.Path]:
@@ -259,3 +259,11 @@ class DSDLTemplateLoader(BaseLoader):
                         discovered.add(current_search_type)
 
         return template_path
+
+
+def _is_template_resource(path: pathlib.Path) -> bool:
+    """
+    True for files a template can load through the loaders: any regular file except the Python files (and caches)
+    that make the templates directory a package.
+    """
+    return path.is_file() and path.suffix not in (".py", ".pyc", ".pyo") and "__pycache__" not in path.parts
